@@ -264,6 +264,13 @@ func (r *Run) writeEvidence(newViol int, knownSeen []string) {
 	for k, v := range r.Extra {
 		cov[k] = v
 	}
+	if r.Assumptions == nil {
+		r.Assumptions = []string{}
+	}
+	if r.Caps == nil {
+		r.Caps = []string{}
+	}
+	cov["caps_hit"] = r.Caps
 	doc := map[string]interface{}{
 		"property_id": r.Property, "tier": r.Tier, "seed": r.Seed,
 		"level": "model_checking", "coverage": cov,
